@@ -176,18 +176,20 @@ def one_case(ctx, c, sample=False):
 def aniso_case(ctx, rng):
     """fully anisotropic lossless tensors: implementation-side round trip only (no theorem, no model)"""
     j = Y.J()
-    c = gen_case(rng, False, dict(sources=[], sig_e=False, sig_h=False, bloch=False, bloch_vector=[0.0, 0.0, 0.0], widths=None))
+    c = gen_case(rng, False, dict(sources=[], sig_e=False, sig_h=False, bloch=False, bloch_vector=[0.0, 0.0, 0.0]))
+    if c["widths"] is None and rng.chance(0.6):   # the averaging stencils are spacing-weighted only on stretched grids
+        c["widths"] = [[50e-9 * rng.uniform(0.5, 2.0) for _ in range(n)] for n in c["shape"]]
     c["faces"] = {k: (v if v != "bloch" else "periodic") for k, v in c["faces"].items()}
     c["aniso"] = True
     d = aniso_fails(c)
-    ctx.case(nontrivial=("aniso", c["seed"]), aniso=True)
+    ctx.case(nontrivial=("aniso", c["seed"]), aniso=True, aniso_grid="nonuniform" if c["widths"] else "uniform")
     ctx.impl_property_evals += 1
     if d:
         ctx.violation(c, d)
 
 
 def aniso_fails(c):
-    sc = Y.build(c["shape"], c["faces"])
+    sc = Y.build(c["shape"], c["faces"], widths=c.get("widths"))
     r = np.random.default_rng(c["seed"])
     nx, ny, nz = c["shape"]
     E, H = r.standard_normal((3, nx, ny, nz)), r.standard_normal((3, nx, ny, nz))
@@ -196,7 +198,11 @@ def aniso_fails(c):
     A = r.uniform(-0.3, 0.3, (3, 3, nx, ny, nz))
     T = np.einsum("ik...,jk...->ij...", A, A) + 0.5 * np.eye(3)[:, :, None, None, None]
     inv_eps = T.reshape(9, nx, ny, nz)
-    arrays = Y.with_state(sc, E, H, inv_eps)
+    inv_mu = None
+    if c["seed"] % 2 == 0:   # every other case: full permeability tensor as well
+        B = r.uniform(-0.3, 0.3, (3, 3, nx, ny, nz))
+        inv_mu = (np.einsum("ik...,jk...->ij...", B, B) + 0.5 * np.eye(3)[:, :, None, None, None]).reshape(9, nx, ny, nz)
+    arrays = Y.with_state(sc, E, H, inv_eps, inv_mu)
     st1 = Y.impl_forward(sc, arrays, t=0, n=1)
     st0 = Y.impl_backward(sc, st1, n=1)
     return verdict(E, H, np.asarray(st0[1].fields.E), np.asarray(st0[1].fields.H))
@@ -219,7 +225,7 @@ def run(ctx):
         cases.append(gen_case(ctx.rng, ctx.thorough))
     for i, c in enumerate(cases):
         one_case(ctx, c, sample=i in (0, 1))
-    for _ in range(ctx.scale(1, 20)):
+    for _ in range(ctx.scale(5, 40)):
         aniso_case(ctx, ctx.rng)
 
 
@@ -252,7 +258,9 @@ def search(ctx, hints):
             ctx.violation(c, d)
             return
     for i in range(ctx.scale(4, 30)):
-        c = gen_case(rng, False, dict(sources=[], sig_e=False, sig_h=False, bloch=False, bloch_vector=[0.0, 0.0, 0.0], widths=None, aniso=True))
+        c = gen_case(rng, False, dict(sources=[], sig_e=False, sig_h=False, bloch=False, bloch_vector=[0.0, 0.0, 0.0], aniso=True))
+        if c["widths"] is None and i % 2 == 0:
+            c["widths"] = [[50e-9 * rng.uniform(0.5, 2.0) for _ in range(n)] for n in c["shape"]]
         c["faces"] = {k: (v if v != "bloch" else "periodic") for k, v in c["faces"].items()}
         d = aniso_fails(c)
         if d:
